@@ -113,14 +113,18 @@ def check(ctx: Ctx) -> list[RuleResult]:
                 r1.instances += 1
                 r1.nontrivial += 1
                 txt = norm(n)
-                if isinstance(n, ast.AugAssign):
-                    cfg = ctx.plain_cfg(g2)
-                    node = _stmt_node(cfg, n)
-                    g = [t for t in cfg.nodes if t.kind == "test" and norm(t.ast) == "timed_out" and cfg.edge_dominates(t, "true", node)]
-                    if g2 is set_state and g and isinstance(n.op, ast.Add) and isinstance(n.value, ast.Constant) and n.value.value == 1:
+                from .common import known_at
+
+                # `x += 1` and `x = x + 1` are the same increment
+                is_inc = (isinstance(n, ast.AugAssign) and isinstance(n.op, ast.Add)) or (isinstance(n, (ast.Assign, ast.AnnAssign)) and isinstance(n.value, ast.BinOp) and isinstance(n.value.op, ast.Add) and norm(n.value.left) == "self._cmd_tx_count")
+                if is_inc:
+                    step = n.value if isinstance(n, ast.AugAssign) else n.value.right  # type: ignore[union-attr]
+                    if g2 is set_state and known_at(n, "timed_out") and isinstance(step, ast.Constant) and step.value == 1:
                         r1.ok({"tx_count_write": txt, "under": "timed_out"})
                     else:
-                        r1.fail(f"{g2.short}:{txt}", g2.loc(n), "tx_count is incremented outside set_state's timed_out branch (or not by exactly 1)")
+                        r1.fail(f"{g2.short}:tx_count-increment", g2.loc(n), "tx_count is incremented outside set_state's timed_out branch (or not by exactly 1)")
+                elif isinstance(n, ast.AugAssign):
+                    r1.fail(f"{g2.short}:{txt}", g2.loc(n), "tx_count is updated by something other than +1")
                 else:
                     v = n.value
                     if isinstance(v, ast.Constant) and v.value in (0, 1):
@@ -164,14 +168,11 @@ def check(ctx: Ctx) -> list[RuleResult]:
         r2.fail(f"{set_state.short}:timer-cancel-first", set_state.loc(), "set_state no longer starts by cancelling the pending expiry timer: a stale timer could retransmit after the state changed")
     r2.instances += 1
     r2.nontrivial += 1
+    from .common import expand, known_at
+
     clears = [n for n in own_nodes(set_state.node) if isinstance(n, ast.Assign) and "self._cmd" in [norm(t) for t in n.targets] and isinstance(n.value, ast.Constant) and n.value.value is None]
-    cfg = ctx.plain_cfg(set_state)
-    okc = False
-    for c in clears:
-        node = _stmt_node(cfg, c)
-        t = [x for x in cfg.nodes if x.kind == "test" and "isinstance(self._state, WantRply)" in norm(x.ast) and cfg.edge_dominates(x, "true", node)]
-        if t:
-            okc = True
+    # the command is cleared exactly where the new state is known to be neither WantEcho nor WantRply
+    okc = any(known_at(c, "not isinstance(self._state, WantRply)", set_state.node) and known_at(c, "not isinstance(self._state, WantEcho)", set_state.node) for c in clears)
     if okc:
         r2.ok({"clears_cmd_when": "state is neither WantEcho nor WantRply"})
     else:
@@ -290,7 +291,8 @@ def check(ctx: Ctx) -> list[RuleResult]:
     for pcall in puts:
         r5.instances += 1
         r5.nontrivial += 1
-        tup = pcall.args[0] if pcall.args and isinstance(pcall.args[0], ast.Tuple) else None
+        arg0 = expand(sc.node, pcall.args[0], pure_only=False) if pcall.args else None  # only the display's shape is inspected  # the entry may be built as a named local first
+        tup = arg0 if isinstance(arg0, ast.Tuple) else None
         if tup is None:
             r5.fail(f"{sc.short}:entry-not-tuple", sc.loc(pcall), "the queue entry is not a tuple display")
             continue
